@@ -12,6 +12,10 @@ oracle_c07 — line protocol (numbers decimal, signed 64-bit):
   `cn <id>`            CnStyle                                                          → 24 characters | `pre-2000`
   `from <text>`        FromChStyle                                                      → `<id>` | `err` | `pre-2000`
   `rt <id>`            FromChStyle(CnStyle(id))                                         → `<text> <id'>` | `pre-2000`
+  `setup <epochMs> <mode> <lowest>`  (re)initialise through the real Setup (epoch 2000…2250)   → `epoch=<e> nb=<n> nal=<b>`
+  `warm`               runs the rest of the package's API (must not touch the codec's state)      → `ok`
+  `rtpar <id> <g> <k>` round trip of id, id+1, … from g goroutines × k                           → `ok` | `pre-2000`
+  `cnbatch <id>+`      CnStyle of every id first, then FromChStyle of every text                  → `ok` | `bad@<i>` | `pre-2000`
   `cmp <a> <b>`        order of (timestamp, remaining bits) pairs                       → `-1` | `0` | `1`
 `pre-2000`: the instant is outside the fixed-offset part of the zone the calendar models.
 The accessor configuration is the one regenerated from the source (`Nv.Gen.C07.cfg`).
@@ -56,6 +60,15 @@ def step (s : OState) (line : String) : OState × String :=
       if nb == "8" || nb == "9" || nb == "10" then
         ({ ready := true, epoch := e, nb := BitVec.ofNat 8 nb.toNat!, nal := nal == "1" }, "ok")
       else (s, "bad-op")
+    | _, _, _ => (s, "bad-op")
+  | ["setup", e, mode, lowest] =>
+    -- the package's own configuration path (Setup/UseEpoch/UseNodeMode/NodeAtLowest on the defaults); epochs of the codec's
+    -- domain only (2000…2250), where every accessor form of UseEpoch yields the epoch asked for
+    match parseI64 e, (if isDec mode then mode.toNat? else none), lowest with
+    | some e, some mode, "0" | some e, some mode, "1" =>
+      if mode > 255 || e.toInt < 946684800000 || e.toInt > 8835984000000 then (s, "bad-op") else
+      let r := Nv.C06.setupCfg ⟨.unixMilli, .unixMilli, .unixMilli⟩ e (BitVec.ofNat 8 mode) (lowest == "1")
+      ({ ready := true, epoch := r.1, nb := r.2.1, nal := r.2.2 }, s!"epoch={showId r.1} nb={r.2.1.toNat} nal={if r.2.2 then 1 else 0}")
     | _, _, _ => (s, "bad-op")
   | _ =>
   if !s.ready then (s, "bad-op") else
@@ -104,6 +117,23 @@ def step (s : OState) (line : String) : OState × String :=
       match fromChStyle c shanghai s.nb s.epoch v with
       | some id' => (s, s!"{String.ofList v} {showId id'}")
       | none => (s, s!"{String.ofList v} err")
+    | none => (s, "bad-op")
+  | ["warm"] => (s, "ok")   -- the runner exercises the rest of the package (NewNode, NewMonoNode, Generate, IDParseEx): no effect on the codec
+  | ["rtpar", id, g, k] =>
+    -- FromChStyle(CnStyle(id+i)) from g goroutines × k ids each: pure functions, so the answer is that of `rt` for every id
+    match parseI64 id, (if isDec g then g.toNat? else none), (if isDec k then k.toNat? else none) with
+    | some id, some g, some k =>
+      if g < 1 || g > 64 || k < 1 || k > 100000 || id.toInt < 0 || id.toInt > 4611686018427387904 then (s, "bad-op")
+      else if (cnMs s.nb s.epoch id).toInt < ms2000 then (s, "pre-2000") else (s, "ok")
+    | _, _, _ => (s, "bad-op")
+  | "cnbatch" :: ids =>
+    -- format a batch of ids, then convert every text back (a date form must stay valid while others are produced)
+    match ids.mapM parseI64 with
+    | some ids =>
+      if ids.isEmpty || ids.length > 64 then (s, "bad-op") else
+      if ids.any (fun id => decide ((cnMs s.nb s.epoch id).toInt < ms2000)) then (s, "pre-2000") else
+      let bad := (ids.zipIdx.filter (fun p => fromChStyle c shanghai s.nb s.epoch (cnStyle shanghai s.nb s.epoch p.1) != some p.1)).map (·.2)
+      (s, match bad with | [] => "ok" | i :: _ => s!"bad@{i}")
     | none => (s, "bad-op")
   | ["cmp", a, b] =>
     match parseI64 a, parseI64 b with
